@@ -221,5 +221,5 @@ pub fn run(ctx: &Ctx) -> ! {
         rep.explore("futex_pct", rule, || case(0, 3, true), scripts / 2, move |c, i| check(c, i, iters));
         rep.explore("cas_pct", rule, || case(1, 3, true), scripts / 4, move |c, i| check(c, i, iters));
     }
-    rep.finish()
+    crate::finish(rep)
 }
